@@ -586,11 +586,18 @@ def li_label_programs(ctx):
                 big = rng.choice([0, 0, 0x1000, 0x12000])
                 g = big + low
                 fill = ['li x7, 1'] * cnt
-                li = 'li {}, {}'.format(spell(rng, rng.choice([5, 10, 1, 31, 6])), e)
+                rd = spell(rng, rng.choice([5, 10, 1, 31, 6]))
+                head = []
+                if n % 3 == 0:
+                    # rd written as a constant that names the register: the second alias pass rebuilds BOTH instructions of the
+                    # expansion, and the rebuilt addi must still take its immediate at the position of the lui
+                    head = ['WR = {}'.format(rd)]
+                    rd = 'WR'
+                li = 'li {}, {}'.format(rd, e)
                 if back:
-                    lines = ['L:'] + gap(g) + fill + [li]
+                    lines = head + ['L:'] + gap(g) + fill + [li]
                 else:
-                    lines = [li] + fill + gap(g) + ['L:']
+                    lines = head + [li] + fill + gap(g) + ['L:']
                 progs.append({'source': '\n'.join(lines) + '\n', 'family': 'li-label'})
                 n += 1
     # a value that crosses the one-instruction threshold when the label moves down (decision on the pessimistic label)
